@@ -10,8 +10,8 @@ CONSTANTS
   NoTarget = NoTarget
   Cmds <- MCCmds
   Group <- MCGroup
-  Reqs = {r1, r2}
-  Kinds = {"plain"}
+  Reqs = {r1}
+  Kinds = {"plain", "forever", "upgrade"}
   MaxProbes = 2
   AllowBad = TRUE
   SignalAfterNotify = TRUE
@@ -27,4 +27,3 @@ INVARIANTS
   D_C17_c
   D_C09
 CHECK_DEADLOCK TRUE
-SYMMETRY Sym2
